@@ -20,6 +20,9 @@ var soupTokens = []string{
 	"(+ 1 2)", "[1 2]", "{:a 1}", "#{:a}", "(def a 1)", "'x", "^{:m 1} [1]", "@a", "`(~a ~@b)", "«atom 1»", "«»", "«1»", "«foo»", "«nil»", "«nil 1 2»", "«$T 1»", "«atom «nil»»", "«\"s\" 1»", "«[a]»", "«:k»", ";; $A «nil»\n", "«atom $x»", "«point $x $x»", "{:a}", "{1 2}", "#{1}",
 }
 
+var macroPrefixes = []string{"'", "`", "~", "~@", "@", "^{:a 1}", "^m", "^:k", "^#{\"x\"}", "^$x", "^[1]", "^\"s\"", "^nil", "^()", "^{}", "^1", "^(f)", "^'q", "^«nil»", "^", "^^"}
+var macroTargets = []string{"x", "[1 2]", "(f)", "{}", "$x", "(with-meta x (meta y))", "(with-meta x)", "(with-meta)", "+", "(fn [] 1)", "#{}", "\"s\"", "nil", "", ")", "(with-meta x y z)", "(with-meta x 1)", "(quote x)", "(deref)"}
+
 // Soup draws a byte string made of reader tokens, delimiters, comments, preamble lines,
 // invalid UTF-8 and NULs, optionally truncated anywhere.
 func Soup(t *rapid.T, label string) string {
@@ -36,6 +39,13 @@ func Soup(t *rapid.T, label string) string {
 		case 3:
 			// a string literal that begins with the keyword marker: reads as a keyword of arbitrary name
 			sb.WriteString(val_quote("\u029e" + Str(t, label+"kwstr", Opts{Str: StrFull, NoNUL: true})))
+		case 4:
+			// stacked reader macros: 1-3 prefixes (metadata of every kind of form among them) and then a form
+			for j, m := 0, 1+rapid.IntRange(0, 2).Draw(t, label+"nmac"); j < m; j++ {
+				sb.WriteString(rapid.SampledFrom(macroPrefixes).Draw(t, label+"mac"))
+				sb.WriteByte(' ')
+			}
+			sb.WriteString(rapid.SampledFrom(macroTargets).Draw(t, label+"mact"))
 		default:
 			sb.WriteString(rapid.SampledFrom(soupTokens).Draw(t, label+"tok"))
 		}
